@@ -28,6 +28,7 @@ N(l) == NM("", l)
 cOrder == [names |-> {N(<<"a">>), N(<<"b">>), NM("n", <<"b">>)}, anames |-> {}, avals |-> {}, texts |-> {<<"t">>}, maxattrs |-> 0, extras |-> {}]
 cAttrs == [names |-> {N(<<"a">>)}, anames |-> {N(<<"x">>), N(<<"y", "-", "z">>), NM("xmlns", <<"n">>), NM("n", <<"x">>)}, avals |-> {<<"1">>, <<"<", "&">>, <<>>},
            texts |-> {}, maxattrs |-> 3, extras |-> {}]
+cAttrs2 == [cAttrs EXCEPT !.maxattrs = 2]      \* two elements: at most two attributes each (three on one element: cAttrs with MaxElems = 1)
 cExtras == [names |-> {N(<<"a">>), N(<<"b", "-", "c">>)}, anames |-> {N(<<"x">>)}, avals |-> {<<"1">>}, texts |-> {<<" ", "t", " ">>, <<"\n">>, <<"<", "&">>},
             maxattrs |-> 1, extras |-> {XC(<<"c", "&", "<", "'", ">", " ", "<", "b">>), XD(<<"D", "O", "C", "T", "Y", "P", "E", " ", "a">>), XP(<<"p", "i">>, <<"x", "=", "1", ">", "\n", "<", "y">>)}]   \* ("> <" inside a comment / instruction is text, not inter-element white space)
 =============================================================================
